@@ -180,15 +180,15 @@ class Harness:
     for c in self.conns.values(): c.close()
 
 
-def in_list_mentions_own_element(body):
-  """some `v in [...]` conjunct (at any depth) whose list mentions v itself"""
-  for p in body:
-    t = p[0]
-    if t == 'in' and p[1][0] == 'v' and p[1][1] in lang.evars(p[2]): return True
-    if t == 'or' and any(in_list_mentions_own_element(b) for b in p[1]): return True
-    if t == 'not' and in_list_mentions_own_element(p[1]): return True
-    if t == 'imp' and (in_list_mentions_own_element(p[1]) or in_list_mentions_own_element(p[2])): return True
-    if t == 'aggeq' and in_list_mentions_own_element(p[4]): return True
+def in_list_mentions_own_element(node):
+  """some `v in [...]` conjunct (at any depth: bodies of negations, disjunctions, combines) whose list mentions v itself"""
+  if isinstance(node, tuple):
+    if len(node) == 3 and node[0] == 'in' and isinstance(node[1], tuple) and node[1][:1] == ('v',):
+      try:
+        if node[1][1] in lang.evars(node[2]): return True
+      except Exception: pass
+    return any(in_list_mentions_own_element(x) for x in node)
+  if isinstance(node, list): return any(in_list_mentions_own_element(x) for x in node)
   return False
 
 
